@@ -102,7 +102,7 @@ def run(rep, tier):
     from props import c14
     c14.pow10_rule(rep, us["utils/num2str.h"])
     rep.floor("functions analysed", nfn, 130)
-    rep.floor("tracked memory accesses", total, 330)
+    rep.floor("tracked memory accesses", total, 300)
     return driver.finish(
         rep, "other",
         "Relational abstract interpretation of %d utility functions (Base64, number/string conversion, UTF-8, ASN.1, memory "
